@@ -2,5 +2,5 @@ CONSTANTS Lens = {0, 1, 2, 3, 4, 5, 15, 16, 17, 32, 33, 64, 65, 73, 74, 75, 76, 
           Firsts = {0, 1, 16, 17, 75, 76, 129, 255}  Fills = {0, 171}  AllOneByte = TRUE  SmallTotal = 90
           RawFull = 2  RawAlpha = {0, 1, 2, 75, 76, 77, 78, 79, 81, 97, 255}  RawMax = 4  Export = TRUE
 SPECIFICATION Spec
-INVARIANTS TypeOK InvEncoder InvEnc InvTrunc InvAlt InvHuge InvParse
+INVARIANTS TypeOK InvEncoder InvEnc InvTrunc InvFetch InvAlt InvHuge InvParse
 CHECK_DEADLOCK FALSE
